@@ -125,9 +125,23 @@ def obs_rule(r):
     return base
 
 
+def links(container, sheet, parent_rule):
+    """the parent links below a sheet / container rule: each rule names its sheet and its containing rule, each
+    declaration block its rule (part of what a rejected mutation must leave as it was)"""
+    out = []
+    for r in getattr(container, 'cssRules', None) or ():
+        ok = [r.parentStyleSheet is sheet, r.parentRule is parent_rule]
+        st = getattr(r, 'style', None)
+        if st is not None:
+            ok.append(st.parentRule is r)
+        out.append((tuple(ok), links(r, sheet, r)))
+    return tuple(out)
+
+
 def obs_sheet(s):
     return ('sheet', q(lambda: s.cssText), q(lambda: tuple(r.type for r in s.cssRules)),
-            q(lambda: tuple(obs_rule(r) for r in s.cssRules)), obs_ns(s.namespaces), q(lambda: s.encoding))
+            q(lambda: tuple(obs_rule(r) for r in s.cssRules)), obs_ns(s.namespaces), q(lambda: s.encoding),
+            q(lambda: links(s, s, None)))
 
 
 def obs_any(o):
